@@ -73,7 +73,7 @@ func (E *Engine) closureFact(arr, full, al string) string {
 }
 
 func isPtrLeaf(l leafInfo) bool {
-	if strings.HasSuffix(l.Path, "#ref") {
+	if l.Ptr || strings.HasSuffix(l.Path, "#ref") {
 		return true
 	}
 	if l.T == nil {
